@@ -111,7 +111,12 @@ Definition is_ref_input (i : input) : bool := match i with InVal _ => false | _ 
 
 Fixpoint observe_args (h : heap) (ins : list input) (vs : list value) : list obs :=
   match ins, vs with
-  | i :: r, v :: s => if is_ref_input i then observe obs_depth h v :: observe_args h r s else observe_args h r s
+  | i :: r, v :: s =>
+    if is_ref_input i then
+      (* slices are shown up to their capacity, so that writes beyond len (append in place) are observed *)
+      let v' := match v with VSlice b off _ cap => VSlice b off cap cap | _ => v end in
+      observe obs_depth h v' :: observe_args h r s
+    else observe_args h r s
   | _, _ => []
   end.
 
@@ -159,7 +164,7 @@ Definition observe_trace (h : heap) (tr : list event) : list (N * list obs) :=
 
 Definition panic_obs (h : heap) (v : value) : pobs :=
   match v with
-  | VIface (Some (t, x)) => if N.eqb t rt_error_ty then PRt else PVal (OIf t (observe obs_depth h x))
+  | VIface (Some (t, x)) => if N.eqb t rt_error_ty then PRt else PVal (observe obs_depth h v)
   | _ => PVal (observe obs_depth h v)
   end.
 
@@ -177,9 +182,10 @@ Definition init_heap (fuel : nat) (p : program) (initf : N) (zeros : list value)
   | o => inr o
   end.
 
-Definition run_case (fuel : nat) (p : program) (h0 : heap) (nglobals : nat) (c : case) : verdict :=
+Definition run_case (fuel : nat) (p : program) (h0 : heap) (nglobals : nat) (c : case) : verdict * N :=
   let '(h1, args) := build_inputs h0 (c_inputs c) in
-  match exec fuel p (c_fn c) args h1 with
+  let '(o, steps) := exec_steps fuel p (c_fn c) args h1 in
+  (match o with
   | Done rs h tr =>
     let got := mkExpect PNone (map (observe obs_depth h) rs) (observe_trace h tr)
                         (observe_globals h nglobals) (observe_args h (c_inputs c) args) in
@@ -191,25 +197,27 @@ Definition run_case (fuel : nat) (p : program) (h0 : heap) (nglobals : nat) (c :
   | OutOfFuel => VFuel
   | Stuck (EUnsupported w) => VUnsupported w
   | Stuck e => VStuck e
-  end.
+  end, steps).
 
 (* all cases against one serialised form of the program; only the non-OK verdicts are kept *)
 Fixpoint run_cases_from (fuel : nat) (p : program) (h0 : heap) (nglobals : nat) (cs : list case) (i : N)
-  : list (N * verdict) :=
+  : list (N * verdict) * N :=
   match cs with
-  | [] => []
-  | c :: r => match run_case fuel p h0 nglobals c with
-              | VOk => run_cases_from fuel p h0 nglobals r (N.succ i)
-              | v => (i, v) :: run_cases_from fuel p h0 nglobals r (N.succ i)
+  | [] => ([], 0%N)
+  | c :: r => let '(v, steps) := run_case fuel p h0 nglobals c in
+              let '(bad, mx) := run_cases_from fuel p h0 nglobals r (N.succ i) in
+              match v with
+              | VOk => (bad, N.max mx steps)
+              | _ => ((i, v) :: bad, mx)
               end
   end.
 
 Inductive form_result :=
 | FRInitFailed (o : outcome)
-| FRCases (bad : list (N * verdict)).
+| FRCases (bad : list (N * verdict)) (max_steps_of_agreeing_case : N).
 
 Definition run_form (fuel : nat) (p : program) (initf : N) (zeros : list value) (cs : list case) : form_result :=
   match init_heap fuel p initf zeros with
   | inr o => FRInitFailed o
-  | inl h0 => FRCases (run_cases_from fuel p h0 (length zeros) cs 0%N)
+  | inl h0 => let '(bad, mx) := run_cases_from fuel p h0 (length zeros) cs 0%N in FRCases bad mx
   end.
